@@ -10,6 +10,7 @@ class HistoricallyTimedOperation(AbstractDenseTimeOnlineOperation):
         self.max = float("inf")
         self.begin = begin
         self.end = end
+        self.started = False
 
     def reset(self):
         pass
@@ -35,7 +36,7 @@ class HistoricallyTimedOperation(AbstractDenseTimeOnlineOperation):
 
         i = 1
         while len(sample) >= i:
-            if i == 1 and sample[0][0] == 0 and begin > 0:
+            if i == 1 and sample[0][0] == 0 and begin > 0 and not self.started:
                 out.append((0, sample[0][0] + begin, float('inf')))
 
             if i == len(sample):
@@ -61,6 +62,9 @@ class HistoricallyTimedOperation(AbstractDenseTimeOnlineOperation):
                             out.append((a[0], b[0], a[2]))
                         out.append((b[0], b[1], b[2]))
             i = i + 1
+
+        if sample:
+            self.started = True
 
         prev = float("nan")
 
